@@ -206,7 +206,12 @@ void do_catch (const char *p, unsigned short new_pc_offset) {
    * longjmp. The stack will have to be manually popped all the way.
    */
   if (!save_context (&econ))
-    error ("*Can't catch too deep recursion error.");
+    {
+      /* the control stack is full: this is the too-deep-recursion error itself, an enclosing catch() must not
+       * receive it as an ordinary error */
+      set_error_state (ES_STACK_FULL);
+      error ("*Can't catch too deep recursion error.");
+    }
 
   push_control_stack (FRAME_CATCH);
 
